@@ -1,12 +1,13 @@
 #!/usr/bin/env python3
-"""Prints a markdown table of what the last run of every check covered (from /verif/evidence/*.json)."""
+"""Prints a markdown table of what the last run of every check covered (from /verif/evidence/*.json, or from the directory given as argument)."""
 import glob, json, os, sys
 sys.path.insert(0, os.path.dirname(os.path.dirname(os.path.abspath(__file__))))
 from checks import CHECKS
 print("| id | level | parts (harness) | tier | evaluations | distinct non-trivial | states / transitions | exhaustive | known findings seen | wall s |")
 print("|---|---|---|---|---|---|---|---|---|---|")
+EVDIR = sys.argv[1] if len(sys.argv) > 1 else "/verif/evidence"
 for pid in sorted(CHECKS):
-    f = "/verif/evidence/%s.json" % pid
+    f = "%s/%s.json" % (EVDIR, pid)
     if not os.path.exists(f):
         print("| %s | %s | - | - | - | - | - | - | - | - |" % (pid, CHECKS[pid]["level"]))
         continue
